@@ -78,3 +78,14 @@ Theorem C04_prim_size_bounded : forall p st0 d st n, 0 <= ps_len p -> ps_packer 
   prim_size st <= 4 * n /\ 0 <= n <= zlen d.
 Proof. exact prim_unpack_size. Qed.
 Print Assumptions C04_prim_size_bounded.
+
+(* track fields (Model/Track.v): Unpack and SetBytes of a Track1 / Track2 / Track3 field answer every byte string with a
+   count or an error *)
+From Iso Require Import Model.Track Proofs.TrackNoPanic.
+Theorem C04_track_no_panic : forall k p t data, 0 <= ps_len p ->
+  match snd (t_unpack k p t data) with Ok _ | Err _ => True | _ => False end.
+Proof. exact t_unpack_total. Qed.
+Print Assumptions C04_track_no_panic.
+Theorem C04_track_setbytes_no_panic : forall k t raw, match snd (t_setbytes k t raw) with Ok _ | Err _ => True | _ => False end.
+Proof. exact t_setbytes_total. Qed.
+Print Assumptions C04_track_setbytes_no_panic.
